@@ -79,134 +79,143 @@ def run(chk):
     # ---- R2..R4 parse_stream ------------------------------------------------------------------------------------------------
     from .pbnfile import reader_rule
     reader_rule(chk, 'C17.R6')
-    pat, func, call, sep_if, ps_fn, pci = separator_pattern(repo, 'C17.R3')
-    w_ps = repo.where(pci.module, ps_fn)
-    q_ps = 'PbnParser.parse_stream'
-    yields = [n for n in ast.walk(ps_fn) if isinstance(n, ast.Yield)]
-    chk.floor('C17.R2', 'yield sites in parse_stream', len(yields), 2)
-    for y in yields:
-        val = y.value
-        guards = [a for a in ancestors(y) if isinstance(a, ast.If) and stmt_of(y) in list(ast.walk(a)) and
-                  any(stmt_of(y) is s or stmt_of(y) in list(ast.walk(s)) for s in a.body)]
-        nonempty = False
-        for g in guards:
-            t = g.test
-            txt = ast.unparse(t)
-            if isinstance(val, ast.Name) and txt in (val.id, f'len({val.id}) != 0', f'len({val.id}) > 0', f'{val.id} != {{}}'):
-                nonempty = True
-            if txt in ('self.tag_pair_buffer', 'len(self.tag_pair_buffer) != 0', 'len(self.tag_pair_buffer) > 0'):
-                nonempty = True
-        chk.require(nonempty, 'C17.R2', repo.where(pci.module, y), q_ps, f'yield {ast.unparse(val) if val else ""} (line role: '
-                    f'{"separator branch" if sep_if in ancestors(y) else "end of file"})',
-                    'a game is yielded only if it has content (no empty game for blank-line runs / leading / trailing blank lines)',
-                    f'`yield {ast.unparse(val) if val else ""}` is not guarded by a non-emptiness test: a leading blank line or a run of blank '
-                    f'lines yields an empty game and parse_board_settings fails on it')
-    check_line_source(chk, 'C17.R3', repo)
-    # R3 separator class
-    fm = re.fullmatch if func == 're.fullmatch' else re.match
-    blanks = ['\n', '\r\n', ' \n', '\t\n', '  \t \r\n', ' ']
-    non = ['[Board "1"]\n', '% PBN 2.1\n', 'N NT 7\n', '[Deal "N:- - - -"]\r\n']
-    for s in blanks:
-        chk.evals()
-        chk.require(fm(pat, s) is not None, 'C17.R3', repo.where(pci.module, call), q_ps, f'separator pattern {pat!r} on {s!r}',
-                    f'the (semi-)empty line {s!r} separates games', f'separator pattern {pat!r} does not recognise the blank line {s!r} (LF/CRLF/whitespace-only)')
-    for s in non:
-        chk.require(fm(pat, s) is None, 'C17.R3', repo.where(pci.module, call), q_ps, f'separator pattern {pat!r} on {s!r}',
-                    f'the content line {s!r} does not separate games', f'separator pattern {pat!r} treats the content line {s!r} as a game separator')
-    # buffers re-initialised unconditionally in the separator branch, then `continue`
-    from .common import flatten_self_calls
-    sep_body = flatten_self_calls(repo, 'PbnParser', sep_if.body)
-    resets = [s for s in sep_body if isinstance(s, ast.Assign) and ast.unparse(s.targets[0]) == 'self.tag_pair_buffer'
-              and ast.unparse(s.value) in ('list()', '[]')]
-    ends = sep_if.body and isinstance(sep_if.body[-1], ast.Continue)
-    chk.require(len(resets) == 1 and ends, 'C17.R3', repo.where(pci.module, sep_if), q_ps, 'separator branch resets the tag buffer and continues',
-                'after a separator the tag buffer is emptied unconditionally and the line is consumed',
-                'the separator branch does not reset self.tag_pair_buffer unconditionally / does not `continue`: tags of one game leak into the next')
-    # the separator test must not depend on anything but the pattern match and the comment state
-    names = {ast.unparse(n) for n in ast.walk(sep_if.test) if isinstance(n, (ast.Attribute, ast.Name))}
-    chk.require(names <= {'match', 'self._in_comment', 'self', stmt_of(call).targets[0].id}, 'C17.R3', repo.where(pci.module, sep_if), q_ps,
-                f'separator test `{ast.unparse(sep_if.test)}`', 'a blank line outside a comment always separates',
-                f'separator test `{ast.unparse(sep_if.test)}` depends on more than the blank-line match and the comment state')
-    # R4 header lines
-    loop = [a for a in ancestors(sep_if) if isinstance(a, ast.For)][0]
-    pct = [s for s in loop.body if isinstance(s, ast.If) and "'%'" in ast.unparse(s.test)]
-    ext = [s for s in loop.body if isinstance(s, ast.Expr) and isinstance(s.value, ast.Call) and ast.unparse(s.value.func) == 'self.extract_content']
-    good = len(pct) == 1 and len(ext) == 1 and isinstance(pct[0].body[-1], ast.Continue) and loop.body.index(pct[0]) < loop.body.index(ext[0]) \
-        and ast.unparse(ext[0].value.args[0]) == 'line'
-    chk.require(good, 'C17.R4', repo.where(pci.module, pct[0]) if pct else w_ps, q_ps, '%-line branch',
-                'header (%) lines are consumed before content extraction', 'a %-line can reach extract_content (it would pollute the tag buffer)')
+    def structural():
+        pat, func, call, sep_if, ps_fn, pci = separator_pattern(repo, 'C17.R3')
+        w_ps = repo.where(pci.module, ps_fn)
+        q_ps = 'PbnParser.parse_stream'
+        yields = [n for n in ast.walk(ps_fn) if isinstance(n, ast.Yield)]
+        chk.floor('C17.R2', 'yield sites in parse_stream', len(yields), 2)
+        for y in yields:
+            val = y.value
+            guards = [a for a in ancestors(y) if isinstance(a, ast.If) and stmt_of(y) in list(ast.walk(a)) and
+                      any(stmt_of(y) is s or stmt_of(y) in list(ast.walk(s)) for s in a.body)]
+            nonempty = False
+            for g in guards:
+                t = g.test
+                txt = ast.unparse(t)
+                if isinstance(val, ast.Name) and txt in (val.id, f'len({val.id}) != 0', f'len({val.id}) > 0', f'{val.id} != {{}}'):
+                    nonempty = True
+                if txt in ('self.tag_pair_buffer', 'len(self.tag_pair_buffer) != 0', 'len(self.tag_pair_buffer) > 0'):
+                    nonempty = True
+            chk.require(nonempty, 'C17.R2', repo.where(pci.module, y), q_ps, f'yield {ast.unparse(val) if val else ""} (line role: '
+                        f'{"separator branch" if sep_if in ancestors(y) else "end of file"})',
+                        'a game is yielded only if it has content (no empty game for blank-line runs / leading / trailing blank lines)',
+                        f'`yield {ast.unparse(val) if val else ""}` is not guarded by a non-emptiness test: a leading blank line or a run of blank '
+                        f'lines yields an empty game and parse_board_settings fails on it')
+        check_line_source(chk, 'C17.R3', repo)
+        # R3 separator class
+        fm = re.fullmatch if func == 're.fullmatch' else re.match
+        blanks = ['\n', '\r\n', ' \n', '\t\n', '  \t \r\n', ' ']
+        non = ['[Board "1"]\n', '% PBN 2.1\n', 'N NT 7\n', '[Deal "N:- - - -"]\r\n']
+        for s in blanks:
+            chk.evals()
+            chk.require(fm(pat, s) is not None, 'C17.R3', repo.where(pci.module, call), q_ps, f'separator pattern {pat!r} on {s!r}',
+                        f'the (semi-)empty line {s!r} separates games', f'separator pattern {pat!r} does not recognise the blank line {s!r} (LF/CRLF/whitespace-only)')
+        for s in non:
+            chk.require(fm(pat, s) is None, 'C17.R3', repo.where(pci.module, call), q_ps, f'separator pattern {pat!r} on {s!r}',
+                        f'the content line {s!r} does not separate games', f'separator pattern {pat!r} treats the content line {s!r} as a game separator')
+        # buffers re-initialised unconditionally in the separator branch, then `continue`
+        from .common import flatten_self_calls
+        sep_body = flatten_self_calls(repo, 'PbnParser', sep_if.body)
+        resets = [s for s in sep_body if isinstance(s, ast.Assign) and ast.unparse(s.targets[0]) == 'self.tag_pair_buffer'
+                  and ast.unparse(s.value) in ('list()', '[]')]
+        ends = sep_if.body and isinstance(sep_if.body[-1], ast.Continue)
+        chk.require(len(resets) == 1 and ends, 'C17.R3', repo.where(pci.module, sep_if), q_ps, 'separator branch resets the tag buffer and continues',
+                    'after a separator the tag buffer is emptied unconditionally and the line is consumed',
+                    'the separator branch does not reset self.tag_pair_buffer unconditionally / does not `continue`: tags of one game leak into the next')
+        # the separator test must not depend on anything but the pattern match and the comment state
+        names = {ast.unparse(n) for n in ast.walk(sep_if.test) if isinstance(n, (ast.Attribute, ast.Name))}
+        chk.require(names <= {'match', 'self._in_comment', 'self', stmt_of(call).targets[0].id}, 'C17.R3', repo.where(pci.module, sep_if), q_ps,
+                    f'separator test `{ast.unparse(sep_if.test)}`', 'a blank line outside a comment always separates',
+                    f'separator test `{ast.unparse(sep_if.test)}` depends on more than the blank-line match and the comment state')
+        # R4 header lines
+        loop = [a for a in ancestors(sep_if) if isinstance(a, ast.For)][0]
+        pct = [s for s in loop.body if isinstance(s, ast.If) and "'%'" in ast.unparse(s.test)]
+        ext = [s for s in loop.body if isinstance(s, ast.Expr) and isinstance(s.value, ast.Call) and ast.unparse(s.value.func) == 'self.extract_content']
+        good = len(pct) == 1 and len(ext) == 1 and isinstance(pct[0].body[-1], ast.Continue) and loop.body.index(pct[0]) < loop.body.index(ext[0]) \
+            and ast.unparse(ext[0].value.args[0]) == 'line'
+        chk.require(good, 'C17.R4', repo.where(pci.module, pct[0]) if pct else w_ps, q_ps, '%-line branch',
+                    'header (%) lines are consumed before content extraction', 'a %-line can reach extract_content (it would pollute the tag buffer)')
 
-    # ---- R5 parse_board folded + parse_board_settings typed flow -----------------------------------------------------------
-    consts = parser_constants(repo, 'C17.R5')
-    w_pb, q_pb = loc(repo, 'PbnParser', 'parse_board', 'C17.R5')
-    deal = 'N:AKQJ.T98.765.432 T98.765.432.AKQJ 765.432.AKQJ.T98 432.AKQJ.T98.765'
-    base = {'Deal': deal, 'Dealer': 'N', 'Vulnerable': 'None', 'Board': '1'}
-    n = 0
-    first_bad = None
-    for order in itertools.permutations(base):
-        for eol in ('\n', '\r\n'):
-            for extra in (False, True):
-                for bid in VALUE_ALPHABET_SAMPLES[:8]:
-                    n += 1
-                    vals = dict(base, Board=bid)
-                    lines = []
-                    for i, t in enumerate(order):
-                        if extra and i == 1:
-                            lines.append(f'[Event "x y"]{eol}')
-                            lines.append(f'[OptimumResultTable "Declarer;Denomination\\2R;Result\\2R"]{eol}')
-                            lines.append(f'N NT 7{eol}')
-                        lines.append(f'[{t} "{vals[t]}"]{eol}')
-                    if extra:
-                        lines.append(f'[Board "duplicate, ignored"]{eol}')
-                    got = fold_parse_board(repo, 'C17.R5', lines)
-                    ok = got[0] == 'ok' and isinstance(got[1], dict) and all(got[1].get(k) == v for k, v in vals.items())
-                    if not ok and first_bad is None:
-                        first_bad = (lines, got)
-                if first_bad:
-                    break
-    chk.evals(n)
-    chk.require(first_bad is None, 'C17.R5', w_pb, q_pb, 'parse_board on tag orders x line ends x extra sections x value alphabet',
-                f'parse_board maps each tag to its first value verbatim on all {n} buffers (any tag order, extra tags/rows, CRLF, duplicates, spaces)',
-                f'buffer {first_bad[0]} -> {first_bad[1]}' if first_bad else '')
-    # parse_board_settings: typed flow of the four tags
-    pm = pci.module
-    _, pbs = repo.method('PbnParser', 'parse_board_settings', 'C17.R5')
-    w_s = repo.where(pm, pbs)
-    ctor = [c for c in ast.walk(pbs) if isinstance(c, ast.Call) and ast.unparse(c.func) == 'BoardSetting']
-    loops = [l for l in ast.walk(pbs) if isinstance(l, ast.For)]
-    comps = [g for l in ast.walk(pbs) if isinstance(l, (ast.ListComp, ast.GeneratorExp)) for g in l.generators]
-    if len(ctor) == 1 and not loops and len(comps) == 1 and isinstance(comps[0].target, ast.Name):
-        # comprehension form: [BoardSetting(...) for game in self.parse_stream(fp)]
-        loops = [ast.For(target=comps[0].target, iter=comps[0].iter, body=[], orelse=[])]
-        comp_form = True
-    else:
-        comp_form = False
-    if len(ctor) != 1 or len(loops) != 1 or not isinstance(loops[0].target, ast.Name):
-        raise AnalysisError('C17.R5', 'PbnParser.parse_board_settings', 'unrecognised shape')
-    x = loops[0].target.id
-    env = {}
-    for st in loops[0].body:
-        if isinstance(st, ast.Assign) and isinstance(st.targets[0], ast.Name):
-            env[st.targets[0].id] = st.value
-    from ..paths import subst
-    ti = TypeInfer(repo, pm, {}, raw_names=[x])
-    ci = repo.cls('BoardSetting')
-    want_tag = {'hands': 'Deal', 'dealer': 'Dealer', 'vul': 'Vulnerable', 'board_id': 'Board'}
-    for k in ctor[0].keywords:
-        expr = subst(k.value, env)
-        ann = parse_annotation(ci.annots[k.arg])
-        got = ti.infer(expr)
-        bad = mismatch(got, ann)
-        chk.require(bad is None, 'C17.R5', repo.where(pm, k.value), 'PbnParser.parse_board_settings', f'{k.arg}={ast.unparse(expr)[:60]}',
-                    f'setting field {k.arg}: {show(ann)} receives {show(got)}', f'setting field `{k.arg}` is declared {show(ann)} but receives {bad}')
-        tags = {n.slice.value for n in ast.walk(expr) if isinstance(n, ast.Subscript) and isinstance(n.value, ast.Name) and n.value.id == x
-                and isinstance(n.slice, ast.Constant)}
-        if k.arg in want_tag:
-            chk.require(tags == {want_tag[k.arg]}, 'C17.R5', repo.where(pm, k.value), 'PbnParser.parse_board_settings', f'{k.arg} <- tags {sorted(tags)}',
-                        f'setting field {k.arg} is read from tag {want_tag[k.arg]}', f'setting field `{k.arg}` is read from tags {sorted(tags)}, expected {want_tag[k.arg]}')
-    check_converters(chk, 'C17.R5', repo, pm, 'PbnParser.parse_board_settings',
-                     {k.arg: subst(k.value, env) for k in ctor[0].keywords},
-                     {k.arg: parse_annotation(ci.annots[k.arg]) for k in ctor[0].keywords if k.arg in ci.annots})
-    app = [c for c in ast.walk(loops[0]) if isinstance(c, ast.Call) and isinstance(c.func, ast.Attribute) and c.func.attr == 'append']
-    chk.require((len(app) == 1 or comp_form) and ast.unparse(loops[0].iter).startswith('self.parse_stream('), 'C17.R5', w_s, 'PbnParser.parse_board_settings',
-                'append per game in stream order', 'boards are appended in the order the games are read', 'boards are not appended once per game in stream order')
+        # ---- R5 parse_board folded + parse_board_settings typed flow -----------------------------------------------------------
+        consts = parser_constants(repo, 'C17.R5')
+        w_pb, q_pb = loc(repo, 'PbnParser', 'parse_board', 'C17.R5')
+        deal = 'N:AKQJ.T98.765.432 T98.765.432.AKQJ 765.432.AKQJ.T98 432.AKQJ.T98.765'
+        base = {'Deal': deal, 'Dealer': 'N', 'Vulnerable': 'None', 'Board': '1'}
+        n = 0
+        first_bad = None
+        for order in itertools.permutations(base):
+            for eol in ('\n', '\r\n'):
+                for extra in (False, True):
+                    for bid in VALUE_ALPHABET_SAMPLES[:8]:
+                        n += 1
+                        vals = dict(base, Board=bid)
+                        lines = []
+                        for i, t in enumerate(order):
+                            if extra and i == 1:
+                                lines.append(f'[Event "x y"]{eol}')
+                                lines.append(f'[OptimumResultTable "Declarer;Denomination\\2R;Result\\2R"]{eol}')
+                                lines.append(f'N NT 7{eol}')
+                            lines.append(f'[{t} "{vals[t]}"]{eol}')
+                        if extra:
+                            lines.append(f'[Board "duplicate, ignored"]{eol}')
+                        got = fold_parse_board(repo, 'C17.R5', lines)
+                        ok = got[0] == 'ok' and isinstance(got[1], dict) and all(got[1].get(k) == v for k, v in vals.items())
+                        if not ok and first_bad is None:
+                            first_bad = (lines, got)
+                    if first_bad:
+                        break
+        chk.evals(n)
+        chk.require(first_bad is None, 'C17.R5', w_pb, q_pb, 'parse_board on tag orders x line ends x extra sections x value alphabet',
+                    f'parse_board maps each tag to its first value verbatim on all {n} buffers (any tag order, extra tags/rows, CRLF, duplicates, spaces)',
+                    f'buffer {first_bad[0]} -> {first_bad[1]}' if first_bad else '')
+        # parse_board_settings: typed flow of the four tags
+        pm = pci.module
+        _, pbs = repo.method('PbnParser', 'parse_board_settings', 'C17.R5')
+        w_s = repo.where(pm, pbs)
+        ctor = [c for c in ast.walk(pbs) if isinstance(c, ast.Call) and ast.unparse(c.func) == 'BoardSetting']
+        loops = [l for l in ast.walk(pbs) if isinstance(l, ast.For)]
+        comps = [g for l in ast.walk(pbs) if isinstance(l, (ast.ListComp, ast.GeneratorExp)) for g in l.generators]
+        if len(ctor) == 1 and not loops and len(comps) == 1 and isinstance(comps[0].target, ast.Name):
+            # comprehension form: [BoardSetting(...) for game in self.parse_stream(fp)]
+            loops = [ast.For(target=comps[0].target, iter=comps[0].iter, body=[], orelse=[])]
+            comp_form = True
+        else:
+            comp_form = False
+        if len(ctor) != 1 or len(loops) != 1 or not isinstance(loops[0].target, ast.Name):
+            raise AnalysisError('C17.R5', 'PbnParser.parse_board_settings', 'unrecognised shape')
+        x = loops[0].target.id
+        env = {}
+        for st in loops[0].body:
+            if isinstance(st, ast.Assign) and isinstance(st.targets[0], ast.Name):
+                env[st.targets[0].id] = st.value
+        from ..paths import subst
+        ti = TypeInfer(repo, pm, {}, raw_names=[x])
+        ci = repo.cls('BoardSetting')
+        want_tag = {'hands': 'Deal', 'dealer': 'Dealer', 'vul': 'Vulnerable', 'board_id': 'Board'}
+        for k in ctor[0].keywords:
+            expr = subst(k.value, env)
+            ann = parse_annotation(ci.annots[k.arg])
+            got = ti.infer(expr)
+            bad = mismatch(got, ann)
+            chk.require(bad is None, 'C17.R5', repo.where(pm, k.value), 'PbnParser.parse_board_settings', f'{k.arg}={ast.unparse(expr)[:60]}',
+                        f'setting field {k.arg}: {show(ann)} receives {show(got)}', f'setting field `{k.arg}` is declared {show(ann)} but receives {bad}')
+            tags = {n.slice.value for n in ast.walk(expr) if isinstance(n, ast.Subscript) and isinstance(n.value, ast.Name) and n.value.id == x
+                    and isinstance(n.slice, ast.Constant)}
+            if k.arg in want_tag:
+                chk.require(tags == {want_tag[k.arg]}, 'C17.R5', repo.where(pm, k.value), 'PbnParser.parse_board_settings', f'{k.arg} <- tags {sorted(tags)}',
+                            f'setting field {k.arg} is read from tag {want_tag[k.arg]}', f'setting field `{k.arg}` is read from tags {sorted(tags)}, expected {want_tag[k.arg]}')
+        check_converters(chk, 'C17.R5', repo, pm, 'PbnParser.parse_board_settings',
+                         {k.arg: subst(k.value, env) for k in ctor[0].keywords},
+                         {k.arg: parse_annotation(ci.annots[k.arg]) for k in ctor[0].keywords if k.arg in ci.annots})
+        app = [c for c in ast.walk(loops[0]) if isinstance(c, ast.Call) and isinstance(c.func, ast.Attribute) and c.func.attr == 'append']
+        chk.require((len(app) == 1 or comp_form) and ast.unparse(loops[0].iter).startswith('self.parse_stream('), 'C17.R5', w_s, 'PbnParser.parse_board_settings',
+                    'append per game in stream order', 'boards are appended in the order the games are read', 'boards are not appended once per game in stream order')
+
+    try:
+        structural()
+    except AnalysisError as e_s:
+        if chk.findings:
+            raise
+        chk.note(f'C17: structural rules not evaluated completely ({e_s.rule} at {e_s.anchor}: {e_s.why[:160]}); the verdict rests on the whole-file rule C17.R6 '
+                 f'(complete reader / writer folded on file layouts and board sequences) and the rules evaluated before')
